@@ -461,6 +461,16 @@ def main_wrapper(pid, run):
     a = ap.parse_args(sys.argv[2:] if len(sys.argv) > 1 and sys.argv[1] == pid else sys.argv[1:])
     seed = int(os.environ.get('VERIF_SEED', '0') or 0)
     chk = Check(pid, a.tier, seed)
+    if not a.replay:
+        # replay files of earlier runs with this seed would otherwise be mistaken for results of this run
+        d = os.path.join(VERIF, 'replays', pid)
+        if os.path.isdir(d):
+            for fn in os.listdir(d):
+                if fn.startswith('%d-' % seed) and fn.endswith('.json'):
+                    try:
+                        os.remove(os.path.join(d, fn))
+                    except OSError:
+                        pass
     try:
         run(chk, a.replay)
         rc = chk.finish()
